@@ -284,7 +284,8 @@ func chartDevs() []Dev {
 	)...)
 	// import-values shapes
 	iv := func(name, class, text string) Dev {
-		return Dev{ID: C + "#dep.import-values=" + name, Class: C + "#dep.import-values:" + class, File: C, Slot: "dep.import-values", Text: text, Core: true}
+		_ = class
+		return Dev{ID: C + "#dep.import-values=" + name, File: C, Slot: "dep.import-values", Text: text, Core: true}
 	}
 	d = append(d,
 		iv("missing", "missing", ""),
@@ -423,7 +424,7 @@ func chartDevs() []Dev {
 		"yaml", "type: object\n",
 		"nonutf8", "{\"type\":\"\xff\"}",
 		"bom", "\xef\xbb\xbf{}",
-		"deep", strings.Repeat("{\"properties\":{\"a\":", 1000)+"{}"+strings.Repeat("}}", 1000),
+		"deep", strings.Repeat("{\"properties\":{\"a\":", 100)+"{}"+strings.Repeat("}}", 100), // compile time grows ~cubically: 800 levels take 5 s
 		"deep-100k", strings.Repeat("[", 100000),
 		"ref-self", "{\"$ref\":\"#\"}",
 		"ref-loop", "{\"properties\":{\"x\":{\"$ref\":\"#/definitions/a\"}},\"definitions\":{\"a\":{\"$ref\":\"#/definitions/b\"},\"b\":{\"$ref\":\"#/definitions/a\"}}}",
@@ -602,7 +603,7 @@ func chartDevs() []Dev {
 		"nul-byte", "  x: \"\x00{{ .Values.x }}\"\n",
 		"long-action", "  x: {{ "+strings.Repeat("(", 5000)+".Values.x"+strings.Repeat(")", 5000)+" }}\n",
 		"deep-if", "  x: "+strings.Repeat("{{ if true }}", 3000)+"y"+strings.Repeat("{{ end }}", 3000)+"\n",
-		"deep-pipeline", "  x: {{ .Values.x "+strings.Repeat("| quote ", 5000)+"}}\n",
+		"deep-pipeline", "  x: {{ .Values.x "+strings.Repeat("| trim ", 5000)+"}}\n", // (not `quote`: every level doubles the escapes, a memory bomb)
 		"delims", "  x: {{`{{`}} {{ \"}}\" }} {{\"{{\"}}\n",
 		"trim-markers", "  x: {{- -}}\n",
 		"novalue", "  x: {{ .Values.nope }}\n",
@@ -882,12 +883,77 @@ func chartDevs() []Dev {
 		"tplstr-self", "tplstr: \"{{ tpl .Values.tplstr . }}\"\n",
 		"deep", "x: "+deep1k+"\n",
 	)...)
-	applyTiers(d, chartPairs, chartTriples)
+	// several shapes of one input class share a finding-key class
+	for i := range d {
+		switch d[i].ID {
+		case "values.yaml#tplstr=self", "@uservalues:tplstr-self", "templates/cm.yaml#x=tpl-self-literal":
+			d[i].Class = "tpl-argument-that-calls-tpl-on-itself"
+		}
+	}
+	applyTiers(d, chartPairsQuick, chartTriples, chartPairs)
 	return d
 }
 
-// chartPairs selects the deviations that are combined pairwise already in the
-// quick tier (the thorough tier pairs every deviation with every other).
+// chartPairsQuick selects the deviations that are combined pairwise in the
+// quick tier: per field the shapes that survive loading and reach dependency
+// processing, value computation, rendering or lint.
+var chartPairsQuick = map[string]string{
+	"Chart.yaml#apiVersion":          "missing v1",
+	"Chart.yaml#name":                "ctrl subname",
+	"Chart.yaml#version":             "prerelease",
+	"Chart.yaml#type":                "missing library",
+	"Chart.yaml#kubeVersion":         "unsat",
+	"Chart.yaml#keywords":            "null",
+	"Chart.yaml#maintainers":         "null item-fields-null",
+	"Chart.yaml#annotations":         "null",
+	"Chart.yaml#dependencies":        "toplevel-null",
+	"Chart.yaml#tail":                "dep-second-missing-chart dep-second-same-name unknown-field",
+	"Chart.yaml#dep.name":            "empty",
+	"Chart.yaml#dep.version":         "missing badrange star unsat",
+	"Chart.yaml#dep.repository":      "missing",
+	"Chart.yaml#dep.condition":       "str empty long missing dots trailing-dot into-scalar into-list nonbool table",
+	"Chart.yaml#dep.tags":            "null listnull missing-tag missing",
+	"Chart.yaml#dep.alias":           "alias alias-same alias-parent alias-global",
+	"Chart.yaml#dep.enabled":         "enabled-false",
+	"Chart.yaml#dep.import-values":   "missing null emptylist item-null item-int item-list child-int parent-missing dots child-scalar-path child-into-scalar parent-scalar-path parent-under-scalar parent-is-sub str-missing-export many",
+	"values.yaml#sub":                "null int missing enabled-null enabled-str enabled-map enabled-false data-scalar data-null global-scalar exports-scalar exports-exp-scalar exports-null",
+	"values.yaml#tags":               "null scalar t1-str t1-false missing",
+	"values.yaml#global":             "null scalar g-map missing",
+	"values.yaml#x":                  "null map missing",
+	"values.yaml#tplstr":             "unclosed self nil-deref null",
+	"values.yaml#imported":           "*",
+	"values.yaml#tail":               "exports Values-key",
+	"values.yaml:":                   "empty null list multi-doc",
+	"values.schema.json:":            "empty null false ref-self bad-regex absent",
+	"values.schema.json#x":           "type-null false not-self",
+	"values.schema.json#sub":         "*",
+	"values.schema.json#required":    "null missingprop",
+	"templates/cm.yaml#x":            "unclosed nil-deref fail toyaml-root include-loop template-loop tpl-loop tpl-nil subcharts-walk",
+	"templates/cm.yaml#t":            "tpl-missing tpl-of-map",
+	"templates/cm.yaml#l":            "lines-dir",
+	"templates/cm.yaml#head":         "kind-null kind-list leading-doc-sep empty",
+	"templates/cm.yaml#metadata":     "null missing",
+	"templates/cm.yaml#annotations":  "null hook-null hook-unknown delete-policy-bad",
+	"templates/cm.yaml#data":         "doc-sep-inside",
+	"templates/cm.yaml#extra":        "second-doc-null second-doc-nometadata second-doc-hook",
+	"templates/cm.yaml:":             "empty only-define redefine-helper absent",
+	"templates/_helpers.tpl:":        "empty self-include define-fails define-tpl-self absent",
+	"files/data.txt:":                "empty only-newline absent",
+	"charts/sub/Chart.yaml#name":     "mismatch missing parent global dotted",
+	"charts/sub/Chart.yaml#version":  "mismatch missing",
+	"charts/sub/Chart.yaml#type":     "*",
+	"charts/sub/Chart.yaml#tail":     "*",
+	"charts/sub/Chart.yaml:":         "null absent",
+	"charts/sub/values.yaml#enabled": "str null false missing",
+	"charts/sub/values.yaml#data":    "scalar null missing",
+	"charts/sub/values.yaml#exports": "null scalar exp-scalar exp-null missing",
+	"charts/sub/values.yaml#global":  "scalar null g-map",
+	"charts/sub/values.yaml:":        "empty null absent",
+	"@uservalues:":                   "null sub-int sub-null sub-enabled-str sub-enabled-false sub-global-int sub-data-int sub-exports-int sub-exports-exp-int global-int global-null global-g-map tags-null tags-t1-str tags-t1-false x-null imported-int tplstr-self",
+}
+
+// chartPairs selects the (larger) set of deviations combined pairwise in the
+// thorough tier.
 // key: "file#slot" (slot deviations) or "file:" (whole-file deviations);
 // value: variant names, "*" = all.
 var chartPairs = map[string]string{
@@ -950,23 +1016,23 @@ var chartPairs = map[string]string{
 // computation (parent values x subchart values x user values x dependency
 // declaration).
 var chartTriples = map[string]string{
-	"Chart.yaml#dep.condition":       "*",
-	"Chart.yaml#dep.tags":            "null listnull nonstring missing-tag missing",
+	"Chart.yaml#dep.condition":       "str empty missing dots trailing-dot into-scalar into-list nonbool table",
+	"Chart.yaml#dep.tags":            "null listnull missing-tag missing",
 	"Chart.yaml#dep.alias":           "alias alias-parent alias-global",
-	"Chart.yaml#dep.import-values":   "*",
+	"Chart.yaml#dep.import-values":   "missing null emptylist item-null item-list dots child-scalar-path child-into-scalar parent-scalar-path parent-under-scalar parent-is-sub str-missing-export str-dot empty-strings",
 	"Chart.yaml#tail":                "dep-second-same-name",
-	"values.yaml#sub":                "*",
-	"values.yaml#tags":               "*",
-	"values.yaml#global":             "*",
+	"values.yaml#sub":                "null int missing enabled-null enabled-str enabled-map enabled-false data-scalar data-null global-scalar exports-scalar exports-exp-scalar exports-null",
+	"values.yaml#tags":               "null scalar t1-str t1-false missing",
+	"values.yaml#global":             "null scalar g-map missing",
 	"values.yaml#imported":           "*",
-	"values.yaml:":                   "null emptymap",
+	"values.yaml:":                   "null",
 	"charts/sub/Chart.yaml#type":     "library",
-	"charts/sub/values.yaml#enabled": "*",
-	"charts/sub/values.yaml#data":    "*",
-	"charts/sub/values.yaml#exports": "*",
-	"charts/sub/values.yaml#global":  "*",
+	"charts/sub/values.yaml#enabled": "str null false missing",
+	"charts/sub/values.yaml#data":    "scalar null missing",
+	"charts/sub/values.yaml#exports": "null scalar exp-scalar exp-null missing",
+	"charts/sub/values.yaml#global":  "scalar null g-map",
 	"charts/sub/values.yaml:":        "null absent",
-	"@uservalues:":                   "null sub-int sub-null sub-enabled-str sub-enabled-false sub-global-int sub-data-int sub-exports-int sub-exports-exp-int global-int global-null global-g-map tags-int tags-null tags-t1-str tags-t1-false imported-int imported-null",
+	"@uservalues:":                   "null sub-int sub-null sub-enabled-str sub-enabled-false sub-global-int sub-data-int sub-exports-int global-int global-null global-g-map tags-null tags-t1-str tags-t1-false imported-int",
 }
 
 // ---------------------------------------------------------------------------
@@ -1159,8 +1225,9 @@ func chartExec(e *env, fs fileset) []res {
 
 func newChartEntry() *docEntry {
 	return &docEntry{
-		name:  "chart",
-		files: chartFiles(),
+		name:      "chart",
+		widePairs: true,
+		files:     chartFiles(),
 		devs:  chartDevs(),
 		trunc: []string{"Chart.yaml", "values.yaml", "values.schema.json", "templates/cm.yaml", "charts/sub/values.yaml"},
 		exec:  chartExec,
